@@ -505,7 +505,7 @@ impl Prop for C13 {
             },
             Leg {
                 name: "random-asan",
-                kind: LegKind::Random { cases: tier.pick(1500, 30_000) },
+                kind: LegKind::Random { cases: tier.pick(3000, 40_000) },
                 workers: 16,
                 build: Build::Asan,
             },
@@ -517,7 +517,7 @@ impl Prop for C13 {
             },
             Leg {
                 name: "random-leak",
-                kind: LegKind::Random { cases: tier.pick(150, 2500) },
+                kind: LegKind::Random { cases: tier.pick(300, 4000) },
                 workers: 16,
                 build: Build::Normal,
             },
